@@ -36,7 +36,17 @@ Inductive insth : nat -> snode -> jval -> Prop :=
        (exists o n, plookup k ms = Some (o, n) /\ insth h n v) \/
        (plookup k ms = None /\ ap_ok ap v) \/
        (plookup k ms = None /\ exists r t, ap = APRef r /\ plookup r types = Some t /\ insth h t v)) ->
-    insth (S h) (SObj ms ap nu) (JObj vs).
+    insth (S h) (SObj ms ap nu) (JObj vs)
+| ih_objk_null h ms ks ap : insth h (SObjK ms ks ap true) (JLit w_null_lit)
+| ih_objk h ms ks ap nu vs :
+    (forall k o n, In (k, (o, n)) ms -> o = false -> exists v, In (k, v) vs) ->
+    (forall k v, In (k, v) vs ->
+       (exists o n, plookup k ms = Some (o, n) /\ insth h n v) \/
+       (plookup k ms = None /\ ap_ok ap v) \/
+       (plookup k ms = None /\ exists r t, ap = APRef r /\ plookup r types = Some t /\ insth h t v) \/
+       (* a member under a key shortcut: its key is a value of the key's type (not looked at here: more values, a stronger theorem) *)
+       (plookup k ms = None /\ exists kk, In kk ks /\ insth h (snd (snd kk)) v)) ->
+    insth (S h) (SObjK ms ks ap nu) (JObj vs).
 Definition inst_e (n : snode) (v : jval) : Prop := exists h, insth h n v.
 (* the type named r accepts v *)
 Definition refacc (r : bytes) (v : jval) : Prop := exists t, plookup r types = Some t /\ inst_e t v.
@@ -64,9 +74,11 @@ Proof.
   all: inversion Hi as [? ex l v0 Hv [Hs Hn]|? ex alts|? ex alts nu l v0 Hin Hv [Hs Hn]|? items mn mx|? ms ap
                         |? ex alts nu r Hinr|h0 ex alts nu r rn t v0 Hinr Hl Ht|? names|h0 names nu r t v0 Hinr Hl Ht
                         |? ex r|h0 ex r nu t v0 Hl Ht|? r
-                        |h0 r nu t v0 Hl Ht|h0 items mn mx nu vs Hmn Hmx Hempty Hall|h0 ms ap nu vs Hreq Hall]; subst; cbn [to_otree].
+                        |h0 r nu t v0 Hl Ht|h0 items mn mx nu vs Hmn Hmx Hempty Hall|h0 ms ap nu vs Hreq Hall
+                        |? ms ks ap|h0 ms ks ap nu vs Hreq Hall]; subst; cbn [to_otree].
   (* the cases that do not look below: the same for h = 0 and h = S h *)
   all: try solve [constructor].
+  all: try solve [destruct ap; constructor].        (* an object with key shortcuts, null *)
   all: try solve [ (* leaf *)
     constructor; destruct Hacc as (Hex & [Hes Hen] & Hr); destruct l as [k rules|];
     [exact (oasx_sound ex k rules v0 Hs Hr Hn Hen Hex Hv)|right; cbn; repeat split; try exact I; intros; discriminate] ].
@@ -116,6 +128,43 @@ Proof.
       * right; left. split; [rewrite (Hlk _ Hl); reflexivity|exact Hap'].
       * right; right. split; [rewrite (Hlk _ Hl); reflexivity|]. exists r, (to_otree t). split; [reflexivity|]. split; [exact (comps_lookup r t Hr)|].
         exact (IH t x (Hty r t Hr) Hinst).
+  - (* an object with key shortcuts *)
+    destruct Hacc as (_ & (Hnd & Hap) & Hms & Hks).
+    assert (Hlk : forall k y, plookup k ms = y ->
+              plookup k (map (fun m : bytes * (bool * snode) => (fst m, to_otree (snd (snd m)))) ms) = option_map (fun z : bool * snode => to_otree (snd z)) y).
+    { intros k y <-.
+      change (fun m : bytes * (bool * snode) => (fst m, to_otree (snd (snd m)))) with (fun m : bytes * (bool * snode) => (fst m, (fun z => to_otree (snd z)) (snd m))).
+      apply (plookup_map (fun z : bool * snode => to_otree (snd z))). }
+    assert (Hreq' : forall k, In k (map fst (filter (fun m : bytes * (bool * snode) => negb (fst (snd m))) ms)) -> exists v, In (k, v) vs).
+    { intros k Hk. apply in_map_iff in Hk. destruct Hk as ([k' [o n0]] & Hk' & Hf). cbn [fst] in Hk'. subst k'.
+      apply filter_In in Hf. destruct Hf as [Hin Ho]. cbn [fst snd] in Ho. apply negb_true_iff in Ho. exact (Hreq k o n0 Hin Ho). }
+    assert (Hprop : forall k x o n0, plookup k ms = Some (o, n0) -> insth h n0 x -> tvalid_e types (to_otree n0) x).
+    { intros k x o n0 Hl Hinst. pose proof (plookup_in k (o, n0) ms Hl) as Hin. exact (IH n0 x (accepted_members _ _ ms Hms _ Hin) Hinst). }
+    assert (Hkk : forall kk x, In kk ks -> insth h (snd (snd kk)) x -> tvalid_e types (to_otree (snd (snd kk))) x).
+    { intros kk x Hin Hinst. exact (IH _ x (accepted_members _ _ ks Hks _ Hin) Hinst). }
+    destruct ap as [| |ty| | | |f|r0]; cbv iota.
+    all: try (apply te_objk; [exact Hreq'|]; intros k x Hx;
+              destruct (Hall k x Hx) as [(o & n0 & Hl & Hinst)|[[Hl Hok]|[(Hl & r & t & E & Hr & Hinst)|(Hl & kk & Hin & Hinst)]]];
+              [ left; exists (to_otree n0); split; [rewrite (Hlk _ _ Hl); reflexivity|exact (Hprop k x o n0 Hl Hinst)]
+              | right; split; [rewrite (Hlk _ _ Hl); reflexivity|];
+                first [ solve [destruct Hok]
+                      | (match goal with |- context [OAp ?a] => exists (OAp a) end; split; [apply in_or_app; left; left; reflexivity|apply te_ap; exact Hok]) ]
+              | right; split; [rewrite (Hlk _ _ Hl); reflexivity|];
+                first [ discriminate E
+                      | (inversion E; subst;
+                         match goal with Hr' : plookup ?rr types = Some t |- _ =>
+                           exists (OAp (APRef rr)); split;
+                           [apply in_or_app; left; left; reflexivity|exact (te_ap_ref types rr (to_otree t) x (comps_lookup rr t Hr') (IH t x (Hty rr t Hr') Hinst))]
+                         end) ]
+              | right; split; [rewrite (Hlk _ _ Hl); reflexivity|]; exists (to_otree (snd (snd kk))); split;
+                [apply in_or_app; right; apply in_or_app; right; apply in_map_iff; exists kk; split; [reflexivity|exact Hin]|exact (Hkk kk x Hin Hinst)] ]).
+    (* additionalProperties that admit everything: no additionalProperties in the Schema Object *)
+    apply te_obj; [exact Hreq'|]. intros k x Hx.
+    destruct (Hall k x Hx) as [(o & n0 & Hl & Hinst)|[[Hl _]|[(Hl & _)|(Hl & _)]]].
+    + left. exists (to_otree n0). split; [rewrite (Hlk _ _ Hl); reflexivity|exact (Hprop k x o n0 Hl Hinst)].
+    + right; left. split; [rewrite (Hlk _ _ Hl); reflexivity|exact I].
+    + right; left. split; [rewrite (Hlk _ _ Hl); reflexivity|exact I].
+    + right; left. split; [rewrite (Hlk _ _ Hl); reflexivity|exact I].
 Qed.
 
 (* ---------- the example ---------- *)
@@ -124,7 +173,8 @@ Proof.
   induction h as [|h IH]; intros n v Hi h' Hle.
   - inversion Hi; subst; solve [econstructor; eassumption].
   - inversion Hi as [| | | | | |h0 ex alts nu r rn t v0 Hinr Hl Ht| |h0 names nu r t v0 Hinr Hl Ht| |h0 ex r nu t v0 Hl Ht|
-                     |h0 r nu t v0 Hl Ht|h0 items mn mx nu vs Hmn Hmx Hempty Hall|h0 ms ap nu vs Hreq Hall]; subst;
+                     |h0 r nu t v0 Hl Ht|h0 items mn mx nu vs Hmn Hmx Hempty Hall|h0 ms ap nu vs Hreq Hall
+                     | |h0 ms ks ap nu vs Hreq Hall]; subst;
       try solve [econstructor; eassumption].
     + destruct h' as [|h']; [lia|]. apply (ih_or_ref h' ex alts nu r rn t v Hinr Hl). apply (IH t v Ht). lia.
     + destruct h' as [|h']; [lia|]. apply (ih_choice h' names nu r t v Hinr Hl). apply (IH t v Ht). lia.
@@ -136,6 +186,12 @@ Proof.
       * left. exists o, n0. split; [exact Hl|]. apply (IH n0 x Hinst). lia.
       * right; left. exact H.
       * right; right. split; [exact Hl|]. exists r, t. split; [exact E|]. split; [exact Hr|]. apply (IH t x Hinst). lia.
+    + destruct h' as [|h']; [lia|]. apply ih_objk; auto. intros k x Hx.
+      destruct (Hall k x Hx) as [(o & n0 & Hl & Hinst)|[H|[(Hl & r & t & E & Hr & Hinst)|(Hl & kk & Hin & Hinst)]]].
+      * left. exists o, n0. split; [exact Hl|]. apply (IH n0 x Hinst). lia.
+      * right; left. exact H.
+      * right; right; left. split; [exact Hl|]. exists r, t. split; [exact E|]. split; [exact Hr|]. apply (IH t x Hinst). lia.
+      * right; right; right. split; [exact Hl|]. exists kk. split; [exact Hin|]. apply (IH _ x Hinst). lia.
 Qed.
 
 Lemma all_some_map {A B} (f : A -> option B) l vs : all_some (map f l) = Some vs -> length vs = length l /\ forall v, In v vs -> exists x, In x l /\ f x = Some v.
@@ -167,7 +223,7 @@ Qed.
 Theorem example_e_inst : types_accepted -> forall fuel n v, accepted_e n -> example_e types fuel n = Some v -> inst_e n v.
 Proof.
   intros Hty. induction fuel as [|f IH]; intros n v Hacc He; [discriminate|]. cbn [example_e] in He.
-  destruct n as [ex l|ex alts nu|items mn mx nu|ms ap nu|r nu|names nu|ex r nu].
+  destruct n as [ex l|ex alts nu|items mn mx nu|ms ap nu|ms ks ap nu|r nu|names nu|ex r nu]; [| | | |discriminate He| | |].
   - inversion He; subst. destruct Hacc as (Hex & Hlit & _). exists 0%nat. constructor; assumption.
   - inversion He; subst. destruct Hacc as (Hlit & _ & _ & [[-> ->]|[(l & Hin & Hv)|(r & rn & Hin & t & Hl & h & Ht)]]).
     + exists 0%nat. apply ih_or_null.
